@@ -23,6 +23,25 @@ import sched
 from sched import ActorKilled, current_actor, current_scheduler, point
 
 _quiet = threading.local()
+_curop = threading.local()
+
+#: operations whose internals (SQL statements / source lines) are preemption points when the
+#: scenario asks for fine granularity; None = every wrapped operation
+FINE_OPS: set[str] | None = None
+#: wrapped operations that are events but not preemption points (pure reads of immutable data)
+MINOR_OPS = {"load", "upsert", "read_retries", "release", "get_result", "get_exception", "heartbeat"}
+
+
+def current_op() -> str | None:
+    st = getattr(_curop, "stack", None)
+    return st[-1] if st else None
+
+
+def fine_allowed() -> bool:
+    op = current_op()
+    if op is None:
+        return False
+    return FINE_OPS is None or op in FINE_OPS
 
 
 class quiet:
@@ -99,6 +118,7 @@ class Recorder:
         self.queue: list[str] = []          # shadow of the broker queue (abstract ids)
         self.enabled = True
         self._last_state: dict[str, Any] | None = None
+        self.inflight: dict[str, list[str]] = {}     # actor -> invocations whose record it is changing
         self._installed: list[tuple[Any, str, Any]] = []
 
     # -- abstraction of arguments / results ----------------------------------
@@ -121,10 +141,26 @@ class Recorder:
                 ev["state"] = self._last_state
             else:
                 with quiet():
-                    ev["state"] = self.project()
+                    fresh = self.project()
+                mine = set(args.get("invs", []) or []) | ({args["inv"]} if args.get("inv") else set())
+                ev["state"] = self._mask_inflight(fresh, ev["actor"], mine)
                 self._last_state = ev["state"]
         self.events.append(ev)
         return ev
+
+    def _mask_inflight(self, fresh: dict[str, Any], me: str, mine: set[str]) -> dict[str, Any]:
+        """A status write of ANOTHER actor that is still inside its transition call (fine granularity:
+        parked between the write and the return) is not part of the logged view yet: the change is
+        attributed to the event of the call that made it."""
+        others = {inv for actor, invs in self.inflight.items() if actor != me for inv in invs} - mine
+        if not others or self._last_state is None:
+            return fresh
+        prev = self._last_state
+        for inv in others:
+            for k, default in (("st", "none"), ("owner", "none")):
+                if k in fresh and inv in fresh[k]:
+                    fresh[k][inv] = prev.get(k, {}).get(inv, default)
+        return fresh
 
     def ghost(self, op: str, **args: Any) -> None:
         if self.enabled:
@@ -140,6 +176,14 @@ class Recorder:
         rec = self
 
         def finish(args: dict[str, Any], ret: Any, err: BaseException | None) -> None:
+            me = current_actor()
+            try:
+                _finish(args, ret, err)
+            finally:
+                if me is not None:
+                    rec.inflight.pop(me.name, None)
+
+        def _finish(args: dict[str, Any], ret: Any, err: BaseException | None) -> None:
             if err is not None:
                 rec.emit(op, args, {"err": err_class(err)})
             else:
@@ -154,7 +198,15 @@ class Recorder:
                 args = absargs(*a, **kw)
             except Exception as ex:  # never let the harness change behaviour
                 args = {"_abs_error": repr(ex)}
-            point(kind, op, args=args)
+            point("minor" if op in MINOR_OPS else kind, op, args=args)
+            st = getattr(_curop, "stack", None)
+            if st is None:
+                st = _curop.stack = []
+            st.append(op)
+            me = current_actor()
+            mark = me is not None and op in ("set_status", "register")
+            if mark:
+                rec.inflight[me.name] = [args["inv"]] if "inv" in args else list(args.get("invs", []))
             try:
                 ret = orig(*a, **kw)
             except ActorKilled:
@@ -162,6 +214,10 @@ class Recorder:
             except BaseException as ex:
                 finish(args, None, ex)
                 raise
+            finally:
+                st.pop()
+                if mark and not inspect.isgenerator(locals().get("ret")):
+                    pass
             if inspect.isgenerator(ret):
                 return rec._gen(ret, args, finish)
             finish(args, ret, None)
@@ -306,7 +362,8 @@ class _ConnProxy:
         s, a = current_scheduler(), current_actor()
         if s is None or a is None or is_quiet():
             return fn()
-        point("sql", label)
+        if fine_allowed():
+            point("sql", f"{current_op()}:{label}")
         while True:
             try:
                 return fn()
@@ -356,7 +413,7 @@ class SqlShim:
 
     def __init__(self) -> None:
         for k in dir(_sqlite3):
-            if not k.startswith("__"):
+            if not k.startswith("__") and k != "connect":
                 setattr(self, k, getattr(_sqlite3, k))
 
     def connect(self, database: Any, *a: Any, **kw: Any) -> Any:
@@ -418,8 +475,8 @@ class LineTracer:
         self.functions = set(functions) if functions else None
 
     def _local(self, frame: Any, event: str, arg: Any) -> Any:
-        if event == "line" and not is_quiet():
-            point("line", f"{frame.f_code.co_filename.rsplit('/', 1)[-1]}:{frame.f_lineno}")
+        if event == "line" and not is_quiet() and fine_allowed():
+            point("line", f"{frame.f_code.co_filename.rsplit('/', 1)[-1]}:{frame.f_code.co_name}:{frame.f_lineno}")
         return self._local
 
     def _global(self, frame: Any, event: str, arg: Any) -> Any:
